@@ -19,27 +19,27 @@ CHECKS = {
               "predicates (get_parent, is_root, Feature.is_mandatory / is_optional) equal the holding relation's. "
               "The model is tied to /repo by differential execution (suite Q on exhaustive small and random models, suite L on "
               "random call sequences, comparing the object graph by identity); a "
-              "Python oracle written from the property text decides concrete violations."),
+              "Python oracle written from the property text decides concrete violations. Source tie (DESIGN §10): Relation.is_*, Feature.is_* / get_*, the FeatureModel listings and lookup are re-translated from feature_model.py into Gallina on every run (Gen/Src_fm.v) and proved equal to the hand model for all inputs (C03_source_*: classification, listings as located features, parent/root, lookup)."),
         note=("Coq kernel; extraction + OCaml driver; the harness; hand-written model of feature_model.py validated only on "
               "the generated inputs; no axioms (Print Assumptions: closed under the global context)"),
-        technique="Coq proof over hand-written Gallina model + differential correspondence (extracted OCaml vs Python)",
+        technique="Coq proof over hand-written Gallina model + differential correspondence (extracted OCaml vs Python) + source re-translated into Gallina on every run (tools/py2coq.py) and proved equal to the model",
         design="4 C03"),
     "C13": dict(
         text=("Theorems: the enumerator [confs] is sound, complete and duplicate-free for the relational semantics [Valid] of "
               "the feature tree (bit-vector configurations), and [estimate] — the transcription of count_configurations_rec — "
               "equals its length for every tree with 0<=min and (max=-1 or 0<=max), all relation kinds, any number of "
               "relations per parent, any size; any further filter (constraints) gives <= estimate. Tie to the code: "
-              "differential suite O-estimate; the semantics itself is validated against an independent brute-force enumerator."),
+              "differential suite O-estimate; the semantics itself is validated against an independent brute-force enumerator. Source tie (DESIGN §10): count_configurations(_rec) and the FMEstimatedConfigurationsNumber object are re-translated from the Python text on every run (Gen/Src_ops.v, Gen/Src_opobj.v); C13_source_exact / _upper / _object state the property about the translated source, for every tree and every prior state of the operation object."),
         note="Coq kernel; extraction/driver; harness; the Gallina semantics as the reading of 'valid configuration'; no axioms",
-        technique="Coq proof (induction over the tree, elementary symmetric polynomials) + differential correspondence",
+        technique="Coq proof (induction over the tree, elementary symmetric polynomials) + differential correspondence + source re-translated into Gallina on every run (tools/py2coq.py) and proved equal to the model",
         design="4 C13"),
     "C14": dict(
         text=("Theorems over the name-form semantics [sem]/[valid]: every core feature is selected in every valid configuration "
               "(with or without constraints), returned once under unique names, root included, and — without constraints — every "
               "always-selected name is returned (constructive: a valid selection avoiding any non-core feature is built). "
-              "Tie to the code: suite O-core (multiset comparison) with a brute-force oracle."),
+              "Tie to the code: suite O-core (multiset comparison) with a brute-force oracle. Source tie (DESIGN §10): get_core_features (the work-list loop itself) and the FMCoreFeatures object are re-translated on every run; C14_source_sound / _once_root / _complete / _object are the property about the translated source (result order covered: the theorem is about the loop the code runs)."),
         note="Coq kernel; extraction/driver; harness; result order of the work-list loop not modelled (multiset); no axioms",
-        technique="Coq proof over hand-written Gallina model + differential correspondence",
+        technique="Coq proof over hand-written Gallina model + differential correspondence + source re-translated into Gallina on every run (tools/py2coq.py) and proved equal to the model",
         design="4 C14"),
     "C15": dict(
         text=("Theorems: the atomic sets are a partition of the feature names (permutation of the name list, no empty set), members "
@@ -52,9 +52,9 @@ CHECKS = {
         text=("Theorems: leaves/leaf count = features without relations, max depth = longest root-to-leaf path, ancestors table = "
               "chain of parents up to the root for every feature, branching factor = bit-exact Python round(children/branches, 2) "
               "with a proved error bound to the exact rational, variation points = features with non-mandatory relations. Totality "
-              "on the implementation (incl. root-only model) is decided by the correspondence suite O-tree, not by a theorem."),
+              "on the implementation (incl. root-only model) is decided by the correspondence suite O-tree, not by a theorem. Source tie (DESIGN §10): the six operation functions and their operation objects are re-translated on every run; C16_source_* state count, leaves, depth, ancestors, branching factor, variation points (under distinct names) and totality about the translated source."),
         note="Coq kernel; extraction/driver; harness; binary64 division and round() modelled in Z and validated on every case; no axioms",
-        technique="Coq proof over hand-written Gallina model + differential correspondence",
+        technique="Coq proof over hand-written Gallina model + differential correspondence + source re-translated into Gallina on every run (tools/py2coq.py) and proved equal to the model",
         design="4 C16"),
     "C18": dict(
         text=("Theorems over the Gallina transcription of the Constraint predicates, for all well-formed logical trees: a "
@@ -63,10 +63,10 @@ CHECKS = {
               "consistent (every complex constraint exactly one of pseudo/strict); split parts' conjunction is equivalent to "
               "the constraint (PARTIAL: without XOR/EQUIVALENCE — the full statement is refuted with witnesses, an open "
               "finding in the flamapy.core dependency); features = names occurring, once. 'Never raises / never modifies' "
-              "is decided on the implementation by suite K (AST dump before/after), not by a theorem."),
+              "is decided on the implementation by suite K (AST dump before/after), not by a theorem. Source tie (DESIGN §10): the Constraint predicates, get_features, left_right_features_from_simple_constraint and split_formula are re-translated from feature_model.py on every run and proved equal to the hand model (C18_source_is_model), so C18_source_requires_sound / _excludes_sound / _no_error / _features are about the translated source."),
         note=("Coq kernel; extraction/driver; harness; fuelled transcriptions of simplify_formula/to_cnf (theorems conditional on "
               "an Ok result; fuel exhaustion never observed); known finding core-simplify-xor-equivalence; no axioms"),
-        technique="Coq proof over hand-written Gallina model + differential correspondence + truth-table oracle",
+        technique="Coq proof over hand-written Gallina model + differential correspondence + truth-table oracle + source re-translated into Gallina on every run (tools/py2coq.py) and proved equal to the model",
         design="4 C18"),
     "C20": dict(
         text=("Theorems: the four equalities are reflexive and symmetric; equal objects have equal hash keys (hence equal hashes "
@@ -85,9 +85,9 @@ CHECKS = {
               "(entries of any object with distinct keys may be permuted at any depth, except inside the two values stored raw), keys "
               "the format does not define are ignored at all six kinds of object, n-ary AND/OR/XOR terms are left folds and a nested "
               "first operand may be merged anywhere. The JSON text "
-              "layer (json.dumps/loads) is an external-library hypothesis validated by parsing the implementation's file on every case."),
+              "layer (json.dumps/loads) is an external-library hypothesis validated by parsing the implementation's file on every case. Source tie (DESIGN §10): the five functions of json_writer.py are re-translated on every run (Gen/Src_json.v); C05_source_writer proves the translated to_json equal to json_write for every model, errors included, so C05_source_roundtrip is the round trip of the translated writer."),
         note="Coq kernel; extraction/driver; harness; json module round trip; no axioms",
-        technique="Coq proof (round-trip by induction over the tree) + differential correspondence on writer and reader",
+        technique="Coq proof (round-trip by induction over the tree) + differential correspondence on writer and reader + source re-translated into Gallina on every run (tools/py2coq.py) and proved equal to the model",
         design="4 C05"),
     "C07": dict(
         text=("Theorems over the Gallina transcription of featureide_writer / featureide_reader on element trees: for every "
@@ -145,9 +145,9 @@ CHECKS = {
               "attribute generation, for EVERY oracle stream of random draws: missing domain = library error, only attribute lists "
               "change, each targeted feature lacking the attribute gets exactly one with the given name and domain, everything else "
               "keeps its attributes, and the value is a listed element, an integer inside a listed integer range or a decimal inside a "
-              "listed float range (given randint answers within its bounds and ordered ranges)."),
+              "listed float range (given randint answers within its bounds and ordered ranges). Source tie (DESIGN §10): the eight tree-operation classes are translated as state records (Gen/Src_opobj.v); C19_source_objects_depend_on_argument_only proves that in ANY state — after any history of executions — the reported result is the function's value on the model of the current execution."),
         note="Coq kernel; extraction/driver; harness recording the random module's draws; float results as exact decimals; no axioms",
-        technique="Coq proof over an oracle-stream model + differential correspondence with recorded draws",
+        technique="Coq proof over an oracle-stream model + differential correspondence with recorded draws + source re-translated into Gallina on every run (tools/py2coq.py) and proved equal to the model",
         design="4 C19"),
     "C09": dict(
         text=("Theorems over the reader models: FaMa XML — for every reference model and EVERY combination of the format's "
